@@ -84,7 +84,7 @@ func runC20(c *Ctx) {
 						return false
 					}
 					k, isC := st.Val.(*ssa.Const)
-					return isC && pathHasSuffix(pathOf(st.Addr), "&synced") && k.Value != nil && k.Value.String() == "false"
+					return isC && pathHasSuffix(pathOf(st.Addr), "synced") && k.Value != nil && k.Value.String() == "false"
 				}))
 			entry := emptyState()
 			entry.add(errNil) // a named result starts out nil
